@@ -3,6 +3,7 @@ C04 helper lemmas (back end), part 3: the immediates `instantiate` stores for br
 (label, label + offset, number), and the control transfer that results when the instruction executes.
 -/
 import ArchSim.Lemmas.C05Li
+import ArchSim.Lemmas.C04Labels
 
 namespace ArchSim.Lemmas.C04
 open ArchSim ArchSim.Asm ArchSim.Rv ArchSim.Lemmas.C05
@@ -27,20 +28,117 @@ theorem sext21_spec (d : Int) :
 /-! ### what `instantiate` builds for branches and jumps -/
 
 theorem labelDisp_ok (ls : Labels) (l : String) (off addr : Int) (k : Nat) (line : String) (L : Int)
-    (h : lookupLabel ls l = some L) : labelDisp ls l off addr k line = .ok (L + off - addr) := by
-  simp only [labelDisp, h]
+    (h : lookupLabel ls l = some L) (hev : (L + off - addr) % 2 = 0) :
+    labelDisp ls l off addr k line = .ok (L + off - addr) := by
+  simp only [labelDisp, h, hev, ne_eq, not_true_eq_false, if_false]
+
+theorem labelDisp_odd (ls : Labels) (l : String) (off addr : Int) (k : Nat) (line : String) (L : Int)
+    (h : lookupLabel ls l = some L) (hodd : (L + off - addr) % 2 ≠ 0) :
+    labelDisp ls l off addr k line = .error (.parser "ParserOddImmediateException" k line) := by
+  simp only [labelDisp, h, if_pos hodd]
 
 theorem labelDisp_unknown (ls : Labels) (l : String) (off addr : Int) (k : Nat) (line : String)
     (h : lookupLabel ls l = none) :
     labelDisp ls l off addr k line = .error (.parser "ParserLabelException" k line) := by
   simp only [labelDisp, h]
 
+/-- the three outcomes of `labelDisp` in one equation -/
+theorem labelDisp_eq (ls : Labels) (l : String) (off addr : Int) (k : Nat) (line : String) :
+    labelDisp ls l off addr k line =
+      match lookupLabel ls l with
+      | some L =>
+        if (L + off - addr) % 2 ≠ 0 then .error (.parser "ParserOddImmediateException" k line)
+        else .ok (L + off - addr)
+      | none => .error (.parser "ParserLabelException" k line) := rfl
+
+/-- a successful `labelDisp` returns the even displacement to a bound label -/
+theorem labelDisp_ok_inv (ls : Labels) (l : String) (off addr : Int) (k : Nat) (line : String) (d : Int)
+    (h : labelDisp ls l off addr k line = .ok d) :
+    ∃ L, lookupLabel ls l = some L ∧ d = L + off - addr ∧ d % 2 = 0 := by
+  rw [labelDisp_eq] at h
+  cases hl : lookupLabel ls l with
+  | none => rw [hl] at h; cases h
+  | some L =>
+    rw [hl] at h
+    by_cases hodd : (L + off - addr) % 2 ≠ 0
+    · simp only [if_pos hodd] at h; cases h
+    · simp only [if_neg hodd] at h
+      cases h
+      exact ⟨L, rfl, rfl, by omega⟩
+
+/-- Label and instruction addresses are multiples of 4, so the displacement is even exactly when the
+    written offset is. -/
+theorem disp_even_iff_off_even (L off a : Int) (hL : L % 4 = 0) (ha : a % 4 = 0) :
+    (L + off - a) % 2 = 0 ↔ off % 2 = 0 := by omega
+
+/-! ### every label address is a multiple of 4 -/
+
+/-- all values of a label table are multiples of 4 -/
+def Aligned4 (ls : Labels) : Prop := ∀ p ∈ ls, p.2 % 4 = 0
+
+theorem Aligned4.lookup {ls : Labels} (h : Aligned4 ls) {l : String} {L : Int} (hl : lookupLabel ls l = some L) :
+    L % 4 = 0 := by
+  simp only [lookupLabel, Option.map_eq_some_iff] at hl
+  obtain ⟨p, hp, rfl⟩ := hl
+  exact h p (List.mem_of_find?_eq_some hp)
+
+theorem Aligned4.addLabel {ls ls' : Labels} (h : Aligned4 ls) {n : String} {v : Int} {k : Nat} {line : String}
+    (hv : v % 4 = 0) (ha : addLabel ls n v k line = .ok ls') : Aligned4 ls' := by
+  rw [(addLabel_ok ls ls' n v k line ha).2.1]
+  intro p hp
+  rcases List.mem_append.mp hp with hp | hp
+  · exact h p hp
+  · simp only [List.mem_singleton] at hp; subst hp; exact hv
+
+theorem stepAddr_mod4 (addr : Int) (it : Item) (h : addr % 4 = 0) : stepAddr addr it % 4 = 0 := by
+  simp only [stepAddr]; split <;> omega
+
+/-- The label pass only binds multiples of 4 when started at one. -/
+theorem processLabels_aligned (es : List TEntry) : ∀ (pending : List (Nat × String)) (ls ls' : Labels) (addr : Int),
+    processLabels es pending ls addr = .ok ls' → addr % 4 = 0 → Aligned4 ls → Aligned4 ls' := by
+  induction es with
+  | nil => intro pending ls ls' addr h _ hls; simp only [processLabels, Except.ok.injEq] at h; subst h; exact hls
+  | cons e rest ih =>
+    obtain ⟨k, line, it⟩ := e
+    intro pending ls ls' addr h ha hls
+    by_cases hlab : isLabel it = true
+    · obtain ⟨s, hs⟩ : ∃ s, it = .str s := by
+        cases it <;> simp [isLabel] at hlab ⊢
+      rw [processLabels_cons_label k line it rest pending ls addr s hs hlab] at h
+      cases hadd : addLabel ls s addr k line with
+      | error x => rw [hadd] at h; cases h
+      | ok ls1 => rw [hadd] at h; exact ih _ _ _ _ h ha (hls.addLabel ha hadd)
+    · have hlab' : isLabel it = false := by simpa using hlab
+      rw [processLabels_cons_other k line it rest pending ls addr hlab'] at h
+      cases hf : pending.find? (fun p => p.1 == k) with
+      | none => rw [hf] at h; exact ih _ _ _ _ h (stepAddr_mod4 addr it ha) hls
+      | some q =>
+        obtain ⟨k0, l⟩ := q
+        rw [hf] at h
+        simp only at h
+        cases hadd : addLabel ls l addr k line with
+        | error x => rw [hadd] at h; cases h
+        | ok ls1 => rw [hadd] at h; exact ih _ _ _ _ h (stepAddr_mod4 addr it ha) (hls.addLabel ha hadd)
+
+/-- Every label of a successful label pass (as `load` runs it: no labels, address 0) is a multiple of 4. -/
+theorem label_mult4 (es : List TEntry) (pending : List (Nat × String)) (ls : Labels)
+    (h : processLabels es pending [] 0 = .ok ls) (l : String) (L : Int) (hl : lookupLabel ls l = some L) :
+    L % 4 = 0 :=
+  (processLabels_aligned es pending [] ls 0 h (by decide) (fun _ hp => by cases hp)).lookup hl
+
 theorem instantiate_btypeLabel (ls : Labels) (addr : Int) (k : Nat) (line : String) (mn : String) (op : Op)
     (hop : Op.ofMnemonic mn = some op) (hty : op.ty = .b) (r1 r2 : Nat) (l : String) (off L : Int)
-    (hl : lookupLabel ls l = some L) :
+    (hl : lookupLabel ls l = some L) (hev : (L + off - addr) % 2 = 0) :
     instantiate ls addr k line (.btypeLabel mn r1 r2 l off) =
       .ok { op := op, rd := 0, rs1 := r1, rs2 := r2, imm := sextImm 13 (L + off - addr), aux := 0 } := by
-  simp only [instantiate, hop, labelDisp_ok ls l off addr k line L hl, mkInstr, storedImm, hty]
+  simp only [instantiate, hop, labelDisp_ok ls l off addr k line L hl hev, mkInstr, storedImm, hty]
+
+theorem instantiate_btypeLabel_odd (ls : Labels) (addr : Int) (k : Nat) (line : String) (mn : String) (op : Op)
+    (hop : Op.ofMnemonic mn = some op) (r1 r2 : Nat) (l : String) (off L : Int)
+    (hl : lookupLabel ls l = some L) (hodd : (L + off - addr) % 2 ≠ 0) :
+    instantiate ls addr k line (.btypeLabel mn r1 r2 l off) =
+      .error (.parser "ParserOddImmediateException" k line) := by
+  simp only [instantiate, hop, labelDisp_odd ls l off addr k line L hl hodd]
 
 theorem instantiate_btypeLabel_unknown (ls : Labels) (addr : Int) (k : Nat) (line : String) (mn : String) (op : Op)
     (hop : Op.ofMnemonic mn = some op) (r1 r2 : Nat) (l : String) (off : Int)
@@ -62,12 +160,22 @@ theorem instantiate_jalImm (ls : Labels) (addr : Int) (k : Nat) (line : String) 
   simp only [instantiate, mkInstr, storedImm, Op.ty]
 
 theorem instantiate_jalLabel (ls : Labels) (addr : Int) (k : Nat) (line : String) (rd : Nat) (l : String)
-    (off L : Int) (hl : lookupLabel ls l = some L) :
+    (off L : Int) (hl : lookupLabel ls l = some L) (hev : (L + off - addr) % 2 = 0) :
     instantiate ls addr k line (.jalLabel rd l off) =
       .ok { op := .jal, rd := rd, rs1 := 0, rs2 := 0, imm := sextImm 21 (L + off - addr), aux := L + off } := by
-  simp only [instantiate, labelDisp_ok ls l off addr k line L hl, mkInstr, storedImm, Op.ty]
+  simp only [instantiate, labelDisp_ok ls l off addr k line L hl hev, mkInstr, storedImm, Op.ty]
   congr 2
   omega
+
+theorem instantiate_jalLabel_odd (ls : Labels) (addr : Int) (k : Nat) (line : String) (rd : Nat) (l : String)
+    (off L : Int) (hl : lookupLabel ls l = some L) (hodd : (L + off - addr) % 2 ≠ 0) :
+    instantiate ls addr k line (.jalLabel rd l off) = .error (.parser "ParserOddImmediateException" k line) := by
+  simp only [instantiate, labelDisp_odd ls l off addr k line L hl hodd]
+
+theorem instantiate_jalLabel_unknown (ls : Labels) (addr : Int) (k : Nat) (line : String) (rd : Nat) (l : String)
+    (off : Int) (hl : lookupLabel ls l = none) :
+    instantiate ls addr k line (.jalLabel rd l off) = .error (.parser "ParserLabelException" k line) := by
+  simp only [instantiate, labelDisp_unknown ls l off addr k line hl]
 
 /-! ### executing branches and jumps -/
 
